@@ -135,6 +135,12 @@ def main():
     ncorp = len(cases)
     cases += [gen_case(R.rng) for _ in range(n)]
     sessions = [{"nocontext": False, "steps": [tstep("T", t), tstep("S", s), tstep(form, x)]} for (t, s, form, x) in cases]
+    # in an eighth of the cases the candidate is checked with the leaf type Tuple[int, int] and every leaf of x is the tuple (1, 2): values
+    # that JAX would treat as NODES are leaves here, so the candidate's structure is still that of x (the names were bound with int leaves)
+    TL = ["tuple", ["int", "int"]]
+    for k, (t, s, form, x) in enumerate(cases):
+        if k >= ncorp and k % 8 == 0 and x != ["n"]:
+            sessions[k]["steps"][2] = tstep(form, T.fill(x, lambda: ["t", [["i", 1], ["i", 2]]]), TL)
     # the same with ARRAY leaves in the binding checks: leaf types whose check binds axes, and unions whose first alternative
     # fails after partial progress (the array check then rolls the context back WHILE the structured check is under way)
     ARRL = [["arr", "Float", "a b"], ["union", [["arr", "Float", "a"], ["arr", "Float", "a b"]]], ["union", [["arr", "Float", "a 7"], ["arr", "Float", "a b"]]],
